@@ -516,7 +516,7 @@ def r7_unreadable_statement_fails_fetch(chk, fx):
     from vlib import absint as A
     targets = [n for n in sorted(fx.thir) if n.endswith("::read_xml") and "::policies::fetch::" in n and "::tests::" not in n
                and ("Policies<T>" in n or "Maybe<" in n)]
-    chk.floor("C03/R7 statement-level readers", len(targets), 3)
+    chk.floor("C03/R7 statement-level readers", len(targets), 2)
     n = 0
     for name in targets:
         chk.analysed(name)
